@@ -78,6 +78,24 @@ def _spec(reader, total):
         if len(total) < SIZE + 2:
             return ("closed", None, None)
         return ("ok", total[:SIZE], total[SIZE + 2:])
+    if reader == "segment":
+        # an error reply (first line starts with ERROR / CLIENT_ERROR / SERVER_ERROR) is one line and is never followed
+        # by the end token; a stream that is still a proper prefix of such a word cannot be decided
+        errs = (b"ERROR", b"CLIENT_ERROR", b"SERVER_ERROR")
+        is_err = False
+        could_be = False
+        for w in errs:
+            if total[:len(w)] == w:
+                is_err = True
+            if len(total) < len(w) and w[:len(total)] == total:
+                could_be = True
+        if is_err:
+            pos = total.find(b"\r\n")
+            if pos < 0:
+                return ("closed", None, None)
+            return ("ok", total[:pos], total[pos + 2:])
+        if could_be:
+            return ("closed", None, None)
     tok = b"\r\n" if reader == "line" else TOKEN
     pos = total.find(tok)
     if pos < 0:
@@ -240,7 +258,7 @@ def shards(tier):
     T = 1500 if thorough else 400
 
     def add_reader(reader, l, b, extra):
-        if l >= 4:
+        if l >= 4 or (l >= 3 and reader == "segment"):
             for m in range(2 ** (l - 1)):
                 S.append(dict(fn="h_reader", timeout=T, shard=dict(reader=reader, l=l, b=b, mask=m, **extra)))
         else:
@@ -249,6 +267,8 @@ def shards(tier):
     for reader, extra in READERS:
         tok = extra.get("token", "")
         top = maxl + (2 if (thorough and len(tok) > 2) else 0)
+        if reader == "segment" and not thorough:
+            top = 3     # the error-reply rule of _readsegment multiplies the branches: 4-byte streams are thorough-only
         for l in range(0, top + 1):
             for b in range(0, maxb + 1):
                 if reader == "value":
@@ -271,12 +291,13 @@ def shards(tier):
                     continue
                 ranges = ((0, 12), (13, 24), (25, 36), (37, 48)) if (multi or (thorough and fetch)) else ((0, 48),)
                 for lo, hi in ranges:
-                    S.append(dict(fn="h_op", timeout=T, shard=dict(scen=scen, vl=vl, recv=recv, cmin=lo, cmax=hi)))
+                    S.append(dict(fn="h_op", timeout=T, weight=3 if (multi or scen == "raw_get") else 1,
+                                  shard=dict(scen=scen, vl=vl, recv=recv, cmin=lo, cmax=hi)))
     return S
 
 
 BOUNDS = {
-    "quick": "readers: stream of 0..4 symbolic bytes (all 256 values) x initial buffer of 0..1 symbolic bytes x every subset "
+    "quick": "readers: stream of 0..4 (0..3 for _readsegment) symbolic bytes (all 256 values) x initial buffer of 0..1 symbolic bytes x every subset "
              "of cut positions (symbolic mask) x EINTR before any recv (symbolic), _readvalue sizes 0..4, _readsegment end "
              "tokens {CRLF, LF, END CRLF, LF CRLF END CRLF}; operations: 18 scenarios (fetch/store/delete/incr/touch/stats/"
              "version/raw_command) with a symbolic stored value of 0, 2 or 3 bytes, one symbolic cut position in 0..48 "
